@@ -43,10 +43,16 @@ def burst(rng, start, end):
             "q_num": 1, "q_den": 3, "seed": rng.getrandbits(48) | 1}
 
 
-def random_schedule(rng, start, end):
-    """Swarm style: one schedule family per run."""
+def random_schedule(rng, start, end, heavy=False):
+    """Swarm style: one schedule family per run. `heavy` programs (tens of thousands of allocations) only get
+    sparse schedules: a collection costs time proportional to the heap, a collection at every allocation of such
+    a program is quadratic."""
     family = rng.choice(["every_full", "every_mixed", "every_nursery", "bernoulli", "bernoulli", "bernoulli",
                          "burst", "burst", "periodic", "threshold"])
+    if heavy:
+        family = rng.choice(["burst", "threshold", "sparse"])
+        if family == "sparse":
+            return every(rng.choice(["full", "mixed", "seeded"]), start + rng.randrange(97), rng.choice([997, 1999, 4001]))
     if family == "every_full":
         return every("full", start)
     if family == "every_mixed":
